@@ -1,6 +1,296 @@
 import OnetVerif.Model.C17
-/-! Property C17 — property theorems, negation witnesses, `_partial` variants and non-vacuity
-examples only (helper lemmas that need Mathlib go to OnetVerif/Proofs/). -/
+/-! Property C17 — valid-peer sets decide exactly who may connect.
+Property theorems (`c17_…`), the lemmas they need, witnesses and non-vacuity examples. -/
 namespace C17
+
+/-- the reference semantics: a map of sets. A peer — identified by its **key** — is valid while no
+set was ever given, or when the id of its key is a member of some current set. -/
+def SpecValid (vp : VP) (k : Key) : Prop :=
+  vp = none ∨ ∃ id ps, vp.get id = some ps ∧ idOfKey k ∈ ps
+
+/-- the Go map has one entry per key -/
+def VP.WF (vp : VP) : Prop :=
+  match vp with
+  | none => True
+  | some m => (m.map (·.1)).Nodup
+
+/-! ### association-list facts -/
+
+theorem lookup_mem {m : List (SetId × List PeerId)} {id : SetId} {ps : List PeerId}
+    (h : m.lookup id = some ps) : (id, ps) ∈ m := by
+  induction m with
+  | nil => simp [List.lookup] at h
+  | cons e m ih =>
+    obtain ⟨a, b⟩ := e
+    simp only [List.lookup] at h
+    split at h
+    · rename_i heq
+      have : id = a := by simpa using heq
+      cases h; subst this; simp
+    · exact List.mem_cons_of_mem _ (ih h)
+
+theorem lookup_of_mem_nodup {m : List (SetId × List PeerId)} {id : SetId} {ps : List PeerId}
+    (hn : (m.map (·.1)).Nodup) (h : (id, ps) ∈ m) : m.lookup id = some ps := by
+  induction m with
+  | nil => simp at h
+  | cons e m ih =>
+    obtain ⟨a, b⟩ := e
+    simp only [List.map_cons, List.nodup_cons] at hn
+    rcases List.mem_cons.mp h with h1 | h2
+    · cases h1; simp [List.lookup]
+    · have hne : id ≠ a := by
+        intro e
+        exact hn.1 (List.mem_map.mpr ⟨(id, ps), h2, e⟩)
+      have : (id == a) = false := by simpa using hne
+      simp only [List.lookup, this]
+      exact ih hn.2 h2
+
+theorem lookup_filter_ne (m : List (SetId × List PeerId)) (id id' : SetId) (h : id' ≠ id) :
+    (m.filter (fun e => e.1 != id)).lookup id' = m.lookup id' := by
+  induction m with
+  | nil => rfl
+  | cons e m ih =>
+    obtain ⟨a, b⟩ := e
+    by_cases ha : a = id
+    · subst ha
+      have h1 : (id' == a) = false := by simpa using h
+      simp [List.filter, List.lookup, h1, ih]
+    · have h2 : (a != id) = true := by simpa using ha
+      simp only [List.filter, h2, List.lookup]
+      split <;> simp_all
+
+/-! ### the table -/
+
+theorem set_wf (vp : VP) (id : SetId) (peers : List Ident) (h : vp.WF) : (vp.set id peers).WF := by
+  simp only [VP.set, VP.WF, List.map_cons, List.nodup_cons]
+  constructor
+  · intro hm
+    obtain ⟨e, he, heq⟩ := List.mem_map.mp hm
+    have := (List.mem_filter.mp he).2
+    simp at this
+    exact this heq
+  · have hsub : ((vp.getD []).filter (fun e => e.1 != id)).map (·.1) |>.Sublist ((vp.getD []).map (·.1)) :=
+      List.Sublist.map _ List.filter_sublist
+    have hn : ((vp.getD []).map (·.1)).Nodup := by
+      cases vp with
+      | none => simp
+      | some m => exact h
+    exact hn.sublist hsub
+
+/-- **`isValid` is the reference semantics, read on the key**: valid ↔ uninitialised ∨ the id of
+the key is in some current set. The wire-supplied `ID` field plays no part. -/
+theorem c17_valid_iff (vp : VP) (h : vp.WF) (p : Ident) :
+    vp.isValid p = true ↔ SpecValid vp p.key := by
+  cases vp with
+  | none => simp [VP.isValid, SpecValid]
+  | some m =>
+    simp only [VP.isValid, SpecValid, List.any_eq_true, VP.get, Ident.getID]
+    constructor
+    · rintro ⟨⟨id, ps⟩, he, hc⟩
+      refine .inr ⟨id, ps, ?_, by simpa using hc⟩
+      rw [lookup_of_mem_nodup h he]; rfl
+    · rintro (h0 | ⟨id, ps, hg, hin⟩)
+      · cases h0
+      · cases hl : m.lookup id with
+        | none => rw [hl] at hg; cases hg; simp at hin
+        | some ps' =>
+          rw [hl] at hg; simp at hg; subst hg
+          exact ⟨(id, ps'), lookup_mem hl, by simpa using hin⟩
+
+/-- the answer of the filter does not depend on the `ID` field a peer declares -/
+theorem c17_idfield_irrelevant (vp : VP) (k : Key) (f f' : PeerId) :
+    vp.isValid ⟨k, f⟩ = vp.isValid ⟨k, f'⟩ := rfl
+
+/-- **reading a set back returns exactly its members** (ids of the keys given) -/
+theorem c17_get_exact (vp : VP) (id : SetId) (peers : List Ident) :
+    (vp.set id peers).get id = some (peers.map Ident.getID) := by
+  simp [VP.set, VP.get, List.lookup]
+
+/-- **replacing one set changes only that set**: once the table exists, every other set reads
+back unchanged -/
+theorem c17_set_frame (vp : VP) (id id' : SetId) (peers : List Ident) (hinit : vp ≠ none)
+    (hne : id' ≠ id) : (vp.set id peers).get id' = vp.get id' := by
+  cases vp with
+  | none => exact absurd rfl hinit
+  | some m =>
+    have h1 : (id' == id) = false := by simpa using hne
+    simp only [VP.set, VP.get, List.lookup, h1, Option.getD_some]
+    rw [lookup_filter_ne m id id' hne]
+
+/-- the first set ever given initialises the table: every other id now reads as the empty set
+(nobody), no longer as "uninitialised" (everybody) -/
+theorem c17_first_set (id id' : SetId) (peers : List Ident) (hne : id' ≠ id) :
+    (VP.set none id peers).get id' = some [] := by
+  have h1 : (id' == id) = false := by simpa using hne
+  simp [VP.set, VP.get, List.lookup, h1]
+
+/-- members of the other sets stay valid when one set is replaced (also by the empty set) -/
+theorem c17_set_keeps_others (vp : VP) (id id' : SetId) (peers : List Ident) (ps : List PeerId)
+    (k : Key) (hne : id' ≠ id) (hg : vp.get id' = some ps) (hin : idOfKey k ∈ ps) :
+    SpecValid (vp.set id peers) k := by
+  have hinit : vp ≠ none := by intro e; subst e; simp [VP.get] at hg
+  exact .inr ⟨id', ps, by rw [c17_set_frame vp id id' peers hinit hne]; exact hg, hin⟩
+
+/-- after `set id peers`, exactly the peers given are valid through `id` -/
+theorem c17_set_members (vp : VP) (id : SetId) (peers : List Ident) (p : Ident) (h : p ∈ peers) :
+    SpecValid (vp.set id peers) p.key :=
+  .inr ⟨id, _, c17_get_exact vp id peers, List.mem_map.mpr ⟨p, h, rfl⟩⟩
+
+/-! ### histories -/
+
+/-- what holds in every reachable state: the table is a map, and every registered connection was
+either dialled by this router or offered by a peer whose **key** was valid at that moment -/
+def Inv (s : State) : Prop :=
+  s.vp.WF ∧ ∀ c ∈ s.conns, match c.origin with
+    | .offered vp0 => SpecValid vp0 c.peer.key
+    | .dialled => True
+
+theorem inv_init : Inv {} := by simp [Inv, VP.WF]
+
+theorem inv_step (s : State) (op : Op) (h : Inv s) : Inv (step s op).1 := by
+  obtain ⟨hw, hc⟩ := h
+  cases op with
+  | setPeers id peers => exact ⟨set_wf _ _ _ hw, hc⟩
+  | getPeers id => exact ⟨hw, hc⟩
+  | offer p m =>
+    simp only [step]
+    split
+    · rename_i hv
+      refine ⟨hw, ?_⟩
+      intro c hin
+      rcases List.mem_append.mp hin with hin | hin
+      · exact hc c hin
+      · simp at hin; subst hin
+        exact (c17_valid_iff s.vp hw p).mp hv
+    · exact ⟨hw, hc⟩
+  | msg k m =>
+    simp only [step]
+    split <;> exact ⟨hw, hc⟩
+  | dial p =>
+    refine ⟨hw, ?_⟩
+    intro c hin
+    simp only [step] at hin
+    rcases List.mem_append.mp hin with hin | hin
+    · exact hc c hin
+    · simp at hin; subst hin; trivial
+  | drop k =>
+    refine ⟨hw, ?_⟩
+    intro c hin
+    simp only [step] at hin
+    exact hc c (List.mem_filter.mp hin).1
+
+theorem inv_run (s : State) (ops : List Op) (h : Inv s) : Inv (run s ops).1 := by
+  induction ops generalizing s with
+  | nil => exact h
+  | cons op l ih => exact ih _ (inv_step s op h)
+
+/-- **histories**: after *every* sequence of set / replace / read operations, connection attempts,
+messages, dialled connections and drops,
+
+* a connection offered by a peer is accepted — and its message dispatched — **iff** the peer's
+  *key* is valid at that moment (no table yet, or in some current set): members are never refused,
+  non-members never served, whatever `ID` field they declare;
+* a refused offer leaves no trace (state unchanged, nothing dispatched);
+* a message is dispatched only over a registered connection, and every registered connection was
+  either opened by this router itself or accepted while its peer's key was valid. -/
+theorem c17_history (ops : List Op) :
+    let s := (run {} ops).1
+    (∀ p m, ((step s (.offer p m)).2 = .dispatched p m ↔ SpecValid s.vp p.key) ∧
+            (¬ SpecValid s.vp p.key → step s (.offer p m) = (s, .refused))) ∧
+    (∀ k m q, (step s (.msg k m)).2 = .dispatched q m →
+        ∃ c ∈ s.conns, c.peer = q ∧ q.key = k ∧
+          (c.origin = .dialled ∨ ∃ vp0, c.origin = .offered vp0 ∧ SpecValid vp0 k)) := by
+  intro s
+  have hinv : Inv s := inv_run {} ops inv_init
+  obtain ⟨hw, hc⟩ := hinv
+  refine ⟨fun p m => ?_, fun k m q hd => ?_⟩
+  · have hiff := c17_valid_iff s.vp hw p
+    constructor
+    · simp only [step]
+      constructor
+      · intro h
+        split at h
+        · rename_i hv; exact hiff.mp hv
+        · cases h
+      · intro h
+        rw [if_pos (hiff.mpr h)]
+    · intro hn
+      have : ¬ s.vp.isValid p = true := fun hv => hn (hiff.mp hv)
+      simp only [step]
+      rw [if_neg this]
+  · simp only [step] at hd
+    split at hd
+    · rename_i c hf
+      have hq : c.peer = q := by simpa using congrArg (fun o => match o with | Obs.dispatched p _ => p | _ => q) hd
+      have hmem := List.mem_of_find?_eq_some hf
+      have hk : c.peer.key = k := by simpa using List.find?_some hf
+      refine ⟨c, hmem, hq, by rw [← hq]; exact hk, ?_⟩
+      have := hc c hmem
+      cases ho : c.origin with
+      | dialled => exact .inl rfl
+      | offered vp0 =>
+        rw [ho] at this
+        exact .inr ⟨vp0, rfl, by rw [← hk]; exact this⟩
+    · cases hd
+
+/-! ### what the theorem does not say — recorded so nobody reads more into it -/
+
+private def setA : SetId := newPeerSetID [1]
+private def setB : SetId := newPeerSetID [2]
+
+/-- connections this router opens itself are not filtered: after dialling a peer that is in none
+of the sets, that peer's messages are dispatched -/
+theorem c17_outgoing_unfiltered :
+    (run {} [.setPeers setA [Ident.honest 1], .dial (Ident.honest 9), .msg 9 5]).2
+      = [.done, .done, .dispatched (Ident.honest 9) 5] := by decide
+
+/-- the filter acts when a connection is offered, not afterwards: a peer accepted while it was a
+member keeps its connection when a later `set` removes it (a *new* connection is refused) -/
+theorem c17_not_retroactive :
+    (run {} [.setPeers setA [Ident.honest 1], .offer (Ident.honest 1) 1, .setPeers setA [],
+             .msg 1 2, .offer (Ident.honest 1) 3]).2
+      = [.done, .dispatched (Ident.honest 1) 1, .done, .dispatched (Ident.honest 1) 2, .refused] := by
+  decide
+
+/-- the defect that was repaired: tested on the wire-supplied field, a peer in none of the sets
+that copies a member's id into its identity passes — its key is not valid. -/
+theorem c17_forged_field_witness :
+    let vp := VP.set none setA [Ident.honest 1]
+    let forged : Ident := ⟨9, idOfKey 1⟩
+    vp.isValidByField forged = true ∧ vp.isValid forged = false ∧ ¬ SpecValid vp forged.key := by
+  intro vp forged
+  have hw : vp.WF := set_wf none _ _ trivial
+  refine ⟨by decide, by decide, fun h => ?_⟩
+  have := (c17_valid_iff vp hw forged).mpr h
+  exact absurd this (by decide)
+
+/-- set ids derived by two services from the same bytes differ; one service's ids are injective
+in the bytes (pre-image of the hash; service ids are 16 bytes) -/
+theorem c17_ctx_setid_injective (sid sid' d d' : List Nat) (h : sid.length = 16) (h' : sid'.length = 16)
+    (heq : ctxPeerSetID sid d = ctxPeerSetID sid' d') : sid = sid' ∧ d = d' :=
+  List.append_inj heq (by omega)
+
+/-- router-level ids are the bytes padded with zeros / cut to 32: `[1]` and `[1,0]` name the same set -/
+theorem c17_raw_setid_padding : newPeerSetID [1] = newPeerSetID [1, 0] := by decide
+
+/-! ### non-vacuity -/
+
+/-- a history over three sets (one empty), replacement, members, an honest non-member and a
+non-member with a forged `ID` field -/
+example :
+    (run {} [.offer (Ident.honest 7) 0,                       -- before any set: everybody
+             .setPeers setA [Ident.honest 1, Ident.honest 2],
+             .setPeers setB [],
+             .offer (Ident.honest 1) 1, .offer (Ident.honest 9) 2, .offer ⟨9, idOfKey 1⟩ 3,
+             .setPeers setA [⟨3, 0⟩],                          -- member given with an empty ID field
+             .offer (Ident.honest 3) 4, .offer (Ident.honest 2) 5,
+             .getPeers setA, .getPeers setB, .getPeers (newPeerSetID [3])]).2
+      = [.dispatched (Ident.honest 7) 0, .done, .done,
+         .dispatched (Ident.honest 1) 1, .refused, .refused,
+         .done, .dispatched (Ident.honest 3) 4, .refused,
+         .peers (some [3]), .peers (some []), .peers (some [])] := by decide
+
+example : SpecValid (VP.set none setA [Ident.honest 1]) 1 :=
+  c17_set_members none setA [Ident.honest 1] (Ident.honest 1) (by simp)
 
 end C17
